@@ -122,6 +122,8 @@ exec("type AL = list[L0]\ntype AG[X] = dict[str, X]\ntype AN = tuple[AL, int]", 
 NULLARY += ['AL', 'list[AL]', 'AG[L0]', 'AN', 'dict[str, AG[L1]]', 'LiteralString', 'List[L0]', 'Dict[str, L0]', 'Tuple[L0, int]', 'Type[L0]', 'AnyStr', 'Literal[CR, 1]', 'Literal[CR]',
             'Sequence[str]', 'Collection[str]', 'Optional[list[L0]]', 'tuple[L0, ...] | list[L1]', 'Hashable', 'SupportsInt', 'Pattern[str]',
             'list[L0] | None', 'Mapping[str, Optional[Sequence[L0]]]', 'tuple[L0, ...] | None']
+# validators after / around metadata that is not a beartype validator (PEP 593 allows arbitrary metadata; typing flattens nested Annotated)
+NULLARY += ["Annotated[int, 'doc', IS(pos)]", "Annotated[Annotated[int, 'unit'], IS(pos)]", "list[Annotated[L0, 'doc', ISINST(L2)]]"]
 # PEP 646 fixed-length unpacking inside tuple hints (first / middle / last / nested): still fixed-length tuples
 NS['Unpack'] = __import__('typing').Unpack
 NULLARY += ['tuple[*tuple[L0, L1], int]', 'tuple[int, *tuple[L0, L1]]', 'tuple[L0, *tuple[L1], int]', 'tuple[Unpack[tuple[L0, L1]], int]', 'tuple[*tuple[L0, *tuple[L1, int]], str]',
